@@ -278,19 +278,7 @@ func c08(c *Ctx) {
 		if fn == nil {
 			continue
 		}
-		g := mx.FG(fn)
-		var reg types.Object
-		inspectNoLit(fn.Body(), func(nd ast.Node) bool {
-			if as, ok := nd.(*ast.AssignStmt); ok && len(as.Lhs) == 2 && len(as.Rhs) == 1 {
-				if ie, ok := unparen(as.Rhs[0]).(*ast.IndexExpr); ok {
-					if fv, _ := fieldOf(minfo, ie.X); fv != nil && (fv.Name() == "int64" || fv.Name() == "float64") {
-						reg = objOf(minfo, as.Lhs[1])
-					}
-				}
-			}
-			return true
-		})
-		calls := g.Match(func(n ast.Node) bool {
+		isMeasureCall := func(n ast.Node) bool {
 			call, ok := n.(*ast.CallExpr)
 			if !ok {
 				return false
@@ -301,7 +289,30 @@ func c08(c *Ctx) {
 			}
 			nn := namedOf(v.Type())
 			return nn != nil && nn.Obj().Name() == "Measure"
+		}
+		// the registered test and the measure loop may live in a shared helper of the two exported methods
+		fn, _ = mx.workFunc(fn, isMeasureCall)
+		g := mx.FG(fn)
+		// "registered": the comma-ok flag of a look-up in a set keyed by observableID (map[observableID[N]]struct{}), whatever the
+		// set is called and wherever it comes from (the observer's field, or a parameter of the helper)
+		var reg types.Object
+		inspectNoLit(fn.Body(), func(nd ast.Node) bool {
+			if as, ok := nd.(*ast.AssignStmt); ok && len(as.Lhs) == 2 && len(as.Rhs) == 1 {
+				if ie, ok := unparen(as.Rhs[0]).(*ast.IndexExpr); ok {
+					if tv, has := minfo.Types[ie.X]; has {
+						if mt, isMap := tv.Type.Underlying().(*types.Map); isMap {
+							kn := namedOf(mt.Key())
+							_, isSet := mt.Elem().Underlying().(*types.Struct)
+							if kn != nil && kn.Obj().Name() == "observableID" && isSet {
+								reg = objOf(minfo, as.Lhs[1])
+							}
+						}
+					}
+				}
+			}
+			return true
 		})
+		calls := g.Match(isMeasureCall)
 		good := reg != nil && len(calls) == 1
 		why := ""
 		if good {
